@@ -75,6 +75,9 @@ pub enum Step {
     Extra(XOp),
     RestartJson,
     RestartDb,
+    /// take only the first k models of the lazy enumeration, then drop the iterator
+    CompleteTake(usize),
+    StableTake(usize),
     /// the documented repair step called on a live object (it is public API; it must be
     /// harmless there)
     FixImport,
@@ -221,6 +224,14 @@ impl Obj {
             }
             Step::StablePrefilter => {
                 let l: Vec<_> = self.adf.stable_with_prefilter().collect();
+                self.interps(l)?
+            }
+            Step::CompleteTake(k) => {
+                let l: Vec<_> = self.adf.complete().take(*k).collect();
+                self.interps(l)?
+            }
+            Step::StableTake(k) => {
+                let l: Vec<_> = self.adf.stable().take(*k).collect();
                 self.interps(l)?
             }
             Step::StableCountA => {
@@ -418,6 +429,11 @@ impl Scenario for History {
         for _ in 0..len {
             if rng.chance(1, 40) {
                 steps.push(Step::FixImport);
+                continue;
+            }
+            if rng.chance(1, 25) {
+                let k = rng.range(0, 2) as usize;
+                steps.push(if rng.chance(1, 2) { Step::CompleteTake(k) } else { Step::StableTake(k) });
                 continue;
             }
             let s = match rng.below(if with_restarts { 24 } else { 20 }) {
@@ -751,8 +767,8 @@ fn err_text(e: &StepErr) -> String {
 fn answer_kind(step: &Step) -> &'static str {
     match step {
         Step::Grounded => "grounded",
-        Step::Complete => "complete",
-        Step::Stable | Step::StablePrefilter => "stable",
+        Step::Complete | Step::CompleteTake(_) => "complete",
+        Step::Stable | Step::StablePrefilter | Step::StableTake(_) => "stable",
         Step::StableCountA | Step::StableCountB => "stable-counting",
         Step::Nogood(_) | Step::TwoValNogood(_) => "nogood",
         Step::FormulaCountsNaive | Step::FacetCountAc | Step::FacetCountGrounded => "counts",
